@@ -603,7 +603,11 @@ class LimitRuleRun(Harness):
                 ask = ctx.snap[id(o)]
                 if lg.market_id in tids:
                     if lg.price is not None:
-                        lo, hi = p0_at[id(o)] * (1 - r), p0_at[id(o)] * (1 + r)
+                        g.require(id(o) in p0_at, "C15.order-before-hooks-not-dispatched",
+                                  "an event registered for every order (the recording probe listed next to the rule) "
+                                  "was not called before this order was accepted")
+                        p0 = p0_at[id(o)]
+                        lo, hi = p0 * (1 - r), p0 * (1 + r)
                         g.require(sand(lg.price > lo - 1, lg.price < hi + 1), "C15.accepted-price-outside-band+tick",
                                   f"order accepted on target market {lg.market_id} outside the band widened by one tick")
                         inside = sand(ask["price"] >= lo, ask["price"] <= hi)
